@@ -32,6 +32,364 @@ static sexp* stack_base;
 #define sexp_debug_printf(fmt, ...)
 #endif
 
+#if CHIBI_VERIF
+/* ------------------------------------------------------------------ */
+/* verification hooks H0-H4 (see /verif/DESIGN.md section 4).          */
+/* Everything here is inert unless the environment asks for it.        */
+/* ------------------------------------------------------------------ */
+#include <stdarg.h>
+#include <signal.h>
+#include <unistd.h>
+#include <execinfo.h>
+#include <dlfcn.h>
+
+SEXP_API sexp_uint_t sexp_allocated_bytes (sexp ctx, sexp x);
+static FILE *verif_out = NULL;
+static int verif_out_state = 0;          /* 0 = not looked at, 1 = on, -1 = off */
+static long verif_seq = 0;
+static int verif_walk_level = -1;        /* 0 off, 1 summary, 2 detail */
+static int verif_poison = -1;
+
+#define VERIF_BT_MAX 24
+static void *verif_last_bt[VERIF_BT_MAX];
+static int verif_last_bt_n = 0;
+static long verif_last_forced_k = 0, verif_last_forced_idx = 0;
+
+static __thread long verif_allocs = 0;   /* allocations since armed */
+static __thread long verif_points = 0;   /* collection points selected so far */
+static __thread long verif_forced = 0;   /* collections actually forced */
+static __thread int verif_armed = 0;
+static __thread int verif_in_gc = 0;
+static __thread int verif_forced_now = 0;
+
+static int  vs_loaded = 0, vs_manual = 0, vs_nat = 0;
+static long vs_every = 0, vs_phase = 0, vs_until = -1, vs_only = -1, vs_skip = 0;
+static long vs_seed = 0, vs_prob = 0, vs_max = -1;
+static long vs_at[64];
+
+static void verif_write_frames (char *buf, size_t len, void **bt, int n) {
+  int i; size_t o = 0; Dl_info info;
+  buf[0] = 0;
+  for (i = 0; i < n && o + 96 < len; i++) {
+    if (dladdr(bt[i], &info) && info.dli_fname) {
+      const char *b = strrchr(info.dli_fname, '/');
+      o += snprintf(buf+o, len-o, "%s\"%s+0x%lx\"", i ? "," : "", b ? b+1 : info.dli_fname,
+                    (unsigned long)((char*)bt[i] - (char*)info.dli_fbase));
+    } else {
+      o += snprintf(buf+o, len-o, "%s\"?+0x%lx\"", i ? "," : "", (unsigned long)bt[i]);
+    }
+  }
+}
+
+static void verif_crash_handler (int sig) {
+  static char buf[8192], fr1[3072], fr2[3072];
+  void *bt[VERIF_BT_MAX]; int n, len;
+  n = backtrace(bt, VERIF_BT_MAX);
+  verif_write_frames(fr1, sizeof(fr1), bt, n);
+  verif_write_frames(fr2, sizeof(fr2), verif_last_bt, verif_last_bt_n);
+  len = snprintf(buf, sizeof(buf),
+                 "{\"n\":%ld,\"e\":\"Crash\",\"sig\":%d,\"k\":%ld,\"forced\":%ld,\"lastk\":%ld,\"lastidx\":%ld,\"stack\":[%s],\"gcstack\":[%s]}\n",
+                 ++verif_seq, sig, verif_allocs, verif_forced, verif_last_forced_k, verif_last_forced_idx, fr1, fr2);
+  if (verif_out) { fflush(verif_out); if (write(fileno(verif_out), buf, len) < 0) {} }
+  _exit(70);
+}
+
+int sexp_verif_tracing (void) {
+  if (verif_out_state == 0) {
+    const char *p = getenv("CHIBI_VERIF_TRACE");
+    if (p && *p) verif_out = fopen(p, "a");
+    verif_out_state = verif_out ? 1 : -1;
+    if (verif_out) {
+      setvbuf(verif_out, NULL, _IOLBF, 0);
+      if (!getenv("CHIBI_VERIF_NOSIG")) {
+        signal(SIGSEGV, verif_crash_handler);
+        signal(SIGBUS, verif_crash_handler);
+        signal(SIGABRT, verif_crash_handler);
+        signal(SIGILL, verif_crash_handler);
+        signal(SIGFPE, verif_crash_handler);
+      }
+    }
+  }
+  return verif_out_state > 0;
+}
+
+void sexp_verif_emit (const char *fmt, ...) {
+  va_list ap;
+  if (!sexp_verif_tracing()) return;
+  flockfile(verif_out);
+  fprintf(verif_out, "{\"n\":%ld,", ++verif_seq);
+  va_start(ap, fmt);
+  vfprintf(verif_out, fmt, ap);
+  va_end(ap);
+  fputs("}\n", verif_out);
+  funlockfile(verif_out);
+}
+
+long sexp_verif_alloc_count (void) { return verif_allocs; }
+
+static void verif_parse_schedule (const char *p) {
+  char key[32]; long val; int n;
+  vs_manual = 0; vs_nat = 0; vs_every = 0; vs_phase = 0; vs_until = -1; vs_only = -1;
+  vs_skip = 0; vs_seed = 0; vs_prob = 0; vs_max = -1;
+  while (p && *p) {
+    n = 0;
+    while (*p && *p != '=' && *p != ',' && n < 31) key[n++] = *p++;
+    key[n] = 0;
+    val = 1;
+    if (*p == '=') {
+      p++;
+      if (!strcmp(key, "at")) {
+        while (*p && *p != ',') {
+          if (vs_nat < 64) vs_at[vs_nat++] = strtol(p, (char**)&p, 10);
+          else strtol(p, (char**)&p, 10);
+          if (*p == ':') p++;
+        }
+      } else {
+        val = strtol(p, (char**)&p, 10);
+      }
+    }
+    if (!strcmp(key, "every")) vs_every = val;
+    else if (!strcmp(key, "phase")) vs_phase = val;
+    else if (!strcmp(key, "until")) vs_until = val;
+    else if (!strcmp(key, "only")) vs_only = val;
+    else if (!strcmp(key, "skip")) vs_skip = val;
+    else if (!strcmp(key, "seed")) vs_seed = val;
+    else if (!strcmp(key, "p")) vs_prob = val;
+    else if (!strcmp(key, "max")) vs_max = val;
+    else if (!strcmp(key, "manual")) vs_manual = 1;
+    if (*p == ',') p++;
+  }
+  vs_loaded = 1;
+}
+
+void sexp_verif_gc_schedule (const char *spec) {
+  verif_parse_schedule(spec);
+  verif_allocs = verif_points = verif_forced = 0;
+  verif_armed = (spec && *spec) ? 1 : 0;
+}
+
+void sexp_verif_arm (int from_vm) {
+  if (verif_armed) return;
+  if (!vs_loaded) {
+    const char *p = getenv("CHIBI_VERIF_GC");
+    verif_parse_schedule(p ? p : "");
+    if (!(p && *p)) { verif_armed = -1; return; }
+  }
+  if (verif_armed < 0) return;
+  if (from_vm && vs_manual) return;
+  verif_armed = 1;
+}
+
+static int verif_should_force (void) {
+  long k = ++verif_allocs, j; int sel = 0, i;
+  unsigned long x;
+  if (k <= vs_skip) return 0;
+  k -= vs_skip;
+  for (i = 0; i < vs_nat; i++) if (vs_at[i] == k) sel = 1;
+  if (vs_every > 0 && (k % vs_every) == (vs_phase % vs_every)) sel = 1;
+  if (vs_prob > 0) {
+    x = (unsigned long)k * 0x9E3779B97F4A7C15UL + (unsigned long)vs_seed * 0xD1B54A32D192ED03UL;
+    x ^= x >> 29; x *= 0xBF58476D1CE4E5B9UL; x ^= x >> 32;
+    if ((x % (unsigned long)vs_prob) == 0) sel = 1;
+  }
+  if (!sel) return 0;
+  j = ++verif_points;
+  if (vs_until >= 0 && j > vs_until) return 0;
+  if (vs_only >= 0 && j != vs_only) return 0;
+  if (vs_max >= 0 && verif_forced >= vs_max) return 0;
+  return 1;
+}
+
+/* id tables: heaps, threads, mutexes/condvars get small integers in order of first sight */
+#define VERIF_IDS 256
+static void *verif_id_ptr[4][VERIF_IDS];
+static int verif_id_n[4];
+static int verif_id_of (int kind, void *p, int fresh) {
+  int i;
+  for (i = 0; i < verif_id_n[kind]; i++)
+    if (verif_id_ptr[kind][i] == p) {
+      if (!fresh) return i;
+      verif_id_ptr[kind][i] = NULL;   /* address reused by a new object */
+    }
+  if (verif_id_n[kind] >= VERIF_IDS) return VERIF_IDS;
+  verif_id_ptr[kind][verif_id_n[kind]] = p;
+  return verif_id_n[kind]++;
+}
+/* threads: ids 1.. in creation order (registered by make-thread); any other context is "main" = 0 */
+int sexp_verif_thread_id (sexp thread) {
+  int i;
+  for (i = 0; i < verif_id_n[1]; i++)
+    if (verif_id_ptr[1][i] == (void*)thread) return i + 1;
+  return 0;
+}
+SEXP_API int sexp_verif_thread_new (sexp thread) { return verif_id_of(1, thread, 1) + 1; }
+SEXP_API int sexp_verif_obj_id (sexp x) { return verif_id_of(2, x, 0); }
+SEXP_API void sexp_verif_reset_ids (void) { verif_id_n[1] = verif_id_n[2] = 0; }
+
+/* time slices (H5) */
+static long vsl_list[256]; static int vsl_n = -1, vsl_i = 0; static unsigned long vsl_seed = 0;
+long sexp_verif_next_slice (long dflt) {
+  static const long menu[] = {1,2,3,5,8,13,21,34,55,89,144,233,377,500};
+  const char *p; long v;
+  if (vsl_n < 0) {
+    vsl_n = 0;
+    p = getenv("CHIBI_VERIF_SLICES");
+    while (p && *p) {
+      if (!strncmp(p, "seed=", 5)) { vsl_seed = strtoul(p+5, (char**)&p, 10) * 2 + 1; }
+      else if (*p >= '0' && *p <= '9') { v = strtol(p, (char**)&p, 10); if (vsl_n < 256) vsl_list[vsl_n++] = v; }
+      else p++;
+    }
+  }
+  if (vsl_i < vsl_n) { v = vsl_list[vsl_i++]; return v >= 1 ? v : 1; }
+  if (vsl_seed) {
+    vsl_seed ^= vsl_seed << 13; vsl_seed ^= vsl_seed >> 7; vsl_seed ^= vsl_seed << 17;
+    return menu[(vsl_seed >> 11) % (sizeof(menu)/sizeof(menu[0]))];
+  }
+  return dflt;
+}
+SEXP_API void sexp_verif_set_slices (const char *spec) {
+  (void)spec; vsl_n = -1; vsl_i = 0; vsl_seed = 0;
+  if (spec) setenv("CHIBI_VERIF_SLICES", spec, 1);
+}
+
+/* heap walk after a collection (H2) */
+static int verif_seg_of (sexp ctx, void *p, sexp_heap *hp) {
+  sexp_heap h; int i = 0;
+  for (h = sexp_context_heap(ctx); h; h = h->next, i++)
+    if ((char*)p >= (char*)h->data && (char*)p < (char*)h->data + h->size) { *hp = h; return i; }
+  return -1;
+}
+
+static void verif_walk (sexp ctx) {
+  const size_t C = sexp_heap_align(1);
+  sexp_heap h, h2; sexp_free_list r; sexp p, end, t, *v;
+  unsigned char **bitmaps; int nseg = 0, si, pass, j, nslots, sj, detail;
+  long a_unsorted=0, a_overlap=0, a_adjacent=0, a_oob=0, a_marked=0, a_pad=0, a_dang=0, a_dangw=0, a_badobj=0, a_tiling=0;
+  char first[256]; size_t size, used, off, limit, k;
+  const char *e;
+  if (verif_walk_level < 0) {
+    e = getenv("CHIBI_VERIF_WALK");
+    verif_walk_level = e ? atoi(e) : 1;
+  }
+  if (!sexp_verif_tracing() || verif_walk_level <= 0) return;
+  detail = verif_walk_level >= 2;
+  first[0] = 0;
+  for (h = sexp_context_heap(ctx); h; h = h->next) nseg++;
+  bitmaps = (unsigned char**) calloc(nseg, sizeof(unsigned char*));
+  flockfile(verif_out);
+  fprintf(verif_out, "{\"n\":%ld,\"e\":\"Gc\",\"h\":%d,\"gc\":%ld,\"forced\":%d,\"k\":%ld,\"chunk\":%d,\"segs\":[",
+          ++verif_seq, verif_id_of(0, sexp_context_heap(ctx), 0), (long)sexp_context_gc_count(ctx),
+          verif_forced_now, verif_allocs, (int)C);
+  for (pass = 0; pass < 2; pass++) {
+    for (h = sexp_context_heap(ctx), si = 0; h; h = h->next, si++) {
+      long nfree = 0, freech = 0, nlive = 0, livech = 0; int end_ok = 0;
+      char *prev_end = (char*)sexp_heap_first_block(h);
+      end = sexp_heap_end(h);
+      if (pass == 0) {
+        bitmaps[si] = (unsigned char*) calloc(h->size / C / 8 + 2, 1);
+        /* the free list on its own */
+        limit = h->size / C + 2;
+        if (h->free_list->size != 0 || (char*)h->free_list != (char*)h->data) {
+          a_badobj++; if (!first[0]) snprintf(first, sizeof(first), "sentinel seg=%d", si);
+        }
+        for (r = h->free_list->next, k = 0; r && k < limit; r = r->next, k++) {
+          if ((char*)r < (char*)sexp_heap_first_block(h) || (char*)r >= (char*)end
+              || ((sexp_uint_t)r & (C-1)) || r->size < C || (r->size & (C-1))
+              || (char*)r + r->size > (char*)end) {
+            a_oob++; if (!first[0]) snprintf(first, sizeof(first), "free-oob seg=%d off=%ld size=%ld", si, (long)(((char*)r - (char*)h->data)/C), (long)(r->size/C));
+            break;
+          }
+          if ((char*)r < prev_end) {
+            a_overlap++; if (!first[0]) snprintf(first, sizeof(first), "free-unsorted-or-overlap seg=%d off=%ld", si, (long)(((char*)r - (char*)h->data)/C));
+          } else if ((char*)r == prev_end && k > 0) {
+            a_adjacent++;
+          }
+          prev_end = (char*)r + r->size;
+          nfree++; freech += r->size / C;
+        }
+        if (k >= limit) { a_unsorted++; if (!first[0]) snprintf(first, sizeof(first), "free-list-cycle seg=%d", si); }
+      }
+      /* the tiling walk */
+      p = sexp_heap_first_block(h);
+      r = h->free_list->next;
+      limit = h->size / C + 2;
+      for (k = 0; p < end && k < limit; k++) {
+        while (r && (char*)r < (char*)p) r = r->next;
+        if ((char*)r == (char*)p) {
+          p = (sexp) (((char*)p) + r->size);
+          continue;
+        }
+        if (sexp_pointer_tag(p) <= 0 || sexp_pointer_tag(p) >= sexp_context_num_types(ctx)) {
+          if (pass == 0) { a_badobj++; if (!first[0]) snprintf(first, sizeof(first), "bad-tag seg=%d off=%ld tag=%d", si, (long)(((char*)p - (char*)h->data)/C), (int)sexp_pointer_tag(p)); }
+          break;
+        }
+        used = sexp_allocated_bytes(ctx, p);
+        size = sexp_heap_align(used);
+        if (size == 0 || (char*)p + size > (char*)end || (r && (char*)p + size > (char*)r)) {
+          if (pass == 0) { a_tiling++; if (!first[0]) snprintf(first, sizeof(first), "object-overlaps seg=%d off=%ld size=%ld tag=%d", si, (long)(((char*)p - (char*)h->data)/C), (long)(size/C), (int)sexp_pointer_tag(p)); }
+          break;
+        }
+        off = ((char*)p - (char*)h->data) / C;
+        if (pass == 0) {
+          bitmaps[si][off >> 3] |= (1 << (off & 7));
+          nlive++; livech += size / C;
+          if (sexp_markedp(p)) { a_marked++; if (!first[0]) snprintf(first, sizeof(first), "mark-left seg=%d off=%ld", si, (long)off); }
+          for (j = used; j < (int)size; j++)
+            if (((unsigned char*)p)[j]) { a_pad++; if (!first[0]) snprintf(first, sizeof(first), "pad-dirty seg=%d off=%ld tag=%d", si, (long)off, (int)sexp_pointer_tag(p)); break; }
+        } else {
+          t = sexp_object_type(ctx, p);
+          nslots = sexp_type_num_slots_of_object(t, p);
+          v = (sexp*) (((char*)p) + sexp_type_field_base(t));
+          for (j = 0; j < nslots; j++) {
+            if (v[j] && sexp_pointerp(v[j]) && (sj = verif_seg_of(ctx, v[j], &h2)) >= 0) {
+              size_t o2 = ((char*)v[j] - (char*)h2->data);
+              if ((o2 & (C-1)) || !(bitmaps[sj][(o2/C) >> 3] & (1 << ((o2/C) & 7)))) {
+                a_dang++; if (!first[0]) snprintf(first, sizeof(first), "dangling seg=%d off=%ld tag=%d slot=%d", si, (long)off, (int)sexp_pointer_tag(p), j);
+              }
+            }
+          }
+          if (sexp_type_weak_base(t) > 0) {
+            nslots = sexp_type_num_weak_slots_of_object(t, p) + sexp_type_weak_len_extra(t);
+            v = (sexp*) (((char*)p) + sexp_type_weak_base(t));
+            for (j = 0; j < nslots; j++) {
+              if (v[j] && sexp_pointerp(v[j]) && (sj = verif_seg_of(ctx, v[j], &h2)) >= 0) {
+                size_t o2 = ((char*)v[j] - (char*)h2->data);
+                if ((o2 & (C-1)) || !(bitmaps[sj][(o2/C) >> 3] & (1 << ((o2/C) & 7)))) {
+                  a_dangw++; if (!first[0]) snprintf(first, sizeof(first), "dangling-weak seg=%d off=%ld tag=%d slot=%d", si, (long)off, (int)sexp_pointer_tag(p), j);
+                }
+              }
+            }
+          }
+        }
+        p = (sexp) (((char*)p) + size);
+      }
+      if (pass == 0) {
+        end_ok = (p == end);
+        fprintf(verif_out, "%s[%ld,%ld,%ld,%ld,%ld,%d]", si ? "," : "", (long)(h->size / C), nfree, freech, nlive, livech, end_ok);
+      }
+    }
+  }
+  fprintf(verif_out, "],\"anom\":[%ld,%ld,%ld,%ld,%ld,%ld,%ld,%ld,%ld,%ld],\"first\":\"%s\"",
+          a_unsorted, a_overlap, a_adjacent, a_oob, a_marked, a_pad, a_dang, a_dangw, a_badobj, a_tiling, first);
+  if (detail) {
+    int firstp = 1;
+    fputs(",\"free\":[", verif_out);
+    for (h = sexp_context_heap(ctx), si = 0; h; h = h->next, si++) {
+      limit = h->size / C + 2;
+      for (r = h->free_list->next, k = 0; r && k < limit; r = r->next, k++) {
+        fprintf(verif_out, "%s[%d,%ld,%ld]", firstp ? "" : ",", si, (long)(((char*)r - (char*)h->data)/C), (long)(r->size/C));
+        firstp = 0;
+      }
+    }
+    fputs("]", verif_out);
+  }
+  fputs("}\n", verif_out);
+  funlockfile(verif_out);
+  for (si = 0; si < nseg; si++) free(bitmaps[si]);
+  free(bitmaps);
+}
+#endif  /* CHIBI_VERIF */
+
 static sexp_heap sexp_heap_last (sexp_heap h) {
   while (h->next) h = h->next;
   return h;
@@ -500,6 +858,11 @@ sexp sexp_sweep (sexp ctx, size_t *sum_freed_ptr) {
       if (!sexp_markedp(p)) {
         /* free p */
         sum_freed += size;
+#if CHIBI_VERIF
+        if (verif_poison < 0) verif_poison = getenv("CHIBI_VERIF_POISON") ? atoi(getenv("CHIBI_VERIF_POISON")) : 0;
+        if (verif_poison && size > sizeof(struct sexp_free_list_t))
+          memset(((char*)p) + sizeof(struct sexp_free_list_t), 0xEF, size - sizeof(struct sexp_free_list_t));
+#endif
         if (((((char*)q) + q->size) == (char*)p) && (q != h->free_list)) {
           /* merge q with p */
           if (r && r->size && ((((char*)p)+size) == (char*)r)) {
@@ -566,6 +929,9 @@ sexp sexp_gc (sexp ctx, size_t *sum_freed) {
   finalized = sexp_finalize(ctx);
   res = sexp_sweep(ctx, sum_freed);
   ++sexp_context_gc_count(ctx);
+#if CHIBI_VERIF
+  verif_walk(ctx);
+#endif
 #if SEXP_USE_TIME_GC
   getrusage(RUSAGE_SELF, &end);
   gc_usecs = (end.ru_utime.tv_sec - start.ru_utime.tv_sec) * 1000000 +
@@ -631,6 +997,12 @@ int sexp_grow_heap (sexp ctx, size_t size, size_t chunk_size) {
     tmp->next = h->next;
     h->next = tmp;
   }
+#if CHIBI_VERIF
+  sexp_verif_emit("\"e\":\"Grow\",\"h\":%d,\"req\":%ld,\"cur\":%ld,\"new\":%ld,\"ok\":%d,\"max\":%ld",
+                  verif_id_of(0, sexp_context_heap(ctx), 0), (long)(size / sexp_heap_align(1)),
+                  (long)(cur_size / sexp_heap_align(1)), (long)(new_size / sexp_heap_align(1)), tmp != NULL,
+                  (long)(h->max_size / sexp_heap_align(1)));
+#endif
   return (h->next != NULL);
 }
 
@@ -708,6 +1080,17 @@ void* sexp_alloc (sexp ctx, size_t size) {
   sexp_uint_t alloc_time;
   struct timeval start, end;
   gettimeofday(&start, NULL);
+#endif
+#if CHIBI_VERIF
+  if (verif_armed > 0 && !verif_in_gc && verif_should_force()) {
+    verif_last_bt_n = backtrace(verif_last_bt, VERIF_BT_MAX);
+    verif_last_forced_k = verif_allocs;
+    verif_last_forced_idx = verif_points;
+    verif_forced++;
+    verif_in_gc = verif_forced_now = 1;
+    sexp_gc(ctx, NULL);
+    verif_in_gc = verif_forced_now = 0;
+  }
 #endif
   size = sexp_heap_align(size) + SEXP_GC_PAD;
 #if SEXP_USE_TRACK_ALLOC_SIZES
